@@ -92,6 +92,9 @@ def base_ns(draw=None, probes=0, hooks=False):
                 dict(t='hmap', id='hl%d' % i, items=dict(va='⟦HL%d⟧' % i,
                                                          xi=i))
                 for i in range(2)]),
+            hx=dict(t='list', items=[hitem(4), '⟦hx-str⟧', 5,
+                                     dict(t='tuple', items=['kk', hitem(6)]),
+                                     '⟦hx-str2⟧']),
             hv=dict(t='hval', id='hv', truth=True, text='⟦HV⟧'),
             hf=dict(t='hval', id='hf', truth=False, text='⟦HF⟧'),
             tq=dict(t='tree', id='r', children=[
@@ -393,6 +396,10 @@ def node_of(cfg, k, depth, scope):
                           [['sort_expr', "'hk'"]],
                           [['size', '1'], ['next', None]],
                           [['skip_unauthorized', None]]])),
+            st.builds(lambda b, o: dict(k='in', ref=dict(r='name', n='hx'),
+                                        opts=o, body=b, **{'else': None}),
+                      inner, st.sampled_from([[], [['reverse', None]],
+                                              [['size', '3']]])),
             st.builds(lambda b: dict(k='in', ref=dict(r='name', n='hi'),
                                      opts=[], body=b, **{'else': b}), inner),
             st.builds(lambda b: dict(k='in', ref=dict(r='name', n='hl'),
